@@ -46,6 +46,7 @@ import (
 	"github.com/thushan/olla/internal/core/domain"
 	"github.com/thushan/olla/internal/core/ports"
 	"github.com/thushan/olla/internal/logger"
+	"github.com/thushan/olla/internal/verifhook"
 	"github.com/thushan/olla/pkg/pool"
 )
 
@@ -225,6 +226,11 @@ func createOptimisedTransport(config *Configuration) *http.Transport {
 		DisableCompression:  true,
 		ForceAttemptHTTP2:   true,
 		DialContext: func(ctx context.Context, network, addr string) (net.Conn, error) {
+			if verifhook.Enabled {
+				if c, handled, herr := verifhook.Dial(ctx, network, addr); handled {
+					return c, herr
+				}
+			}
 			dialer := &net.Dialer{
 				Timeout:   config.GetConnectionTimeout(),
 				KeepAlive: config.GetConnectionKeepAlive(),
